@@ -252,6 +252,50 @@ def _harness_limits():
     resource.setrlimit(resource.RLIMIT_AS, (8 << 30, 8 << 30))
 
 
+STALL_LIMIT = 100        # seconds without a byte of output (the harness flushes after every case)
+STALL_AGAIN = 40         # ... once a process of this run has been killed for it, and for small files (shrinking, replay)
+MAX_STALLS = 3
+
+
+def _run_watch(cmd, timeout, stall):
+    """subprocess.run with two clocks: the wall-clock limit and a limit on the time WITHOUT OUTPUT. The harness
+    flushes after every case, so a process that prints nothing for `stall` seconds is inside a call that does not
+    return (modes without a per-call watchdog): it is killed then, not after the wall-clock limit.
+    -> (rc, stdout, stderr, reason or None)"""
+    import threading
+    p = subprocess.Popen(cmd, stdout=subprocess.PIPE, stderr=subprocess.PIPE, env=ENV, preexec_fn=_harness_limits)
+    bufs = {"o": [], "e": []}
+    last = [time.time()]
+
+    def rd(f, k):
+        while True:
+            chunk = f.read1(1 << 16)
+            if not chunk:
+                break
+            bufs[k].append(chunk)
+            last[0] = time.time()
+    ths = [threading.Thread(target=rd, args=(p.stdout, "o"), daemon=True),
+           threading.Thread(target=rd, args=(p.stderr, "e"), daemon=True)]
+    for t in ths:
+        t.start()
+    t0, reason = time.time(), None
+    while p.poll() is None:
+        time.sleep(0.05)
+        now = time.time()
+        if now - t0 > timeout:
+            reason = "harness killed after %d s" % timeout
+        elif now - last[0] > stall:
+            reason = "harness killed after %d s without output (a call does not return)" % stall
+        if reason:
+            p.kill()
+            break
+    p.wait()
+    for t in ths:
+        t.join(10)
+    dec = lambda k: b"".join(bufs[k]).decode("utf-8", "replace")
+    return (-9 if reason else p.returncode), dec("o"), dec("e"), reason
+
+
 def harness_run(mode, cases_file, release=False, timeout=1800, extra=None):
     """runs the harness; exit status 3 means "a watchdog expired in the last case printed": the process
     is restarted on the remaining cases so that abandoned (spinning) threads do not accumulate"""
@@ -259,20 +303,17 @@ def harness_run(mode, cases_file, release=False, timeout=1800, extra=None):
     text = open(cases_file).read()
     blocks = re.findall(r"^case .*?^end$", text, flags=re.S | re.M)
     pending = blocks
-    rounds = 0
+    rounds = stalls = 0
     while True:
         rounds += 1
         cf = cases_file if rounds == 1 else cases_file + ".rest"
         if rounds > 1:
             open(cf, "w").write("\n".join(pending) + "\n")
         cmd = [harness_bin(release), mode, cf] + (extra or [])
-        try:
-            p = subprocess.run(cmd, stdout=subprocess.PIPE, stderr=subprocess.PIPE, timeout=timeout, env=ENV,
-                               text=True, errors="replace", preexec_fn=_harness_limits)
-            rc, out, err = p.returncode, p.stdout, p.stderr
-        except subprocess.TimeoutExpired as e:
-            dec = lambda b: b.decode("utf-8", "replace") if isinstance(b, bytes) else (b or "")
-            rc, out, err = -9, dec(e.stdout), dec(e.stderr) + "\n[driver] harness killed after %d s" % timeout
+        rc, out, err, reason = _run_watch(cmd, timeout, STALL_AGAIN if (stalls or len(blocks) <= 40) else STALL_LIMIT)
+        if reason:
+            err += "\n[driver] " + reason
+            stalls += 1
         if rc in (0, 2, 3) or rounds > 2000:
             all_out.append(out)
             all_err.append(err)
@@ -299,6 +340,11 @@ def harness_run(mode, cases_file, release=False, timeout=1800, extra=None):
             cid = pending[done].split()[1]
             all_out.append("case %s\nO 1 1 1 101 F 0\nO 9 1 1 %d F 0\nend\n" % (cid, rc))
         pending = pending[done + 1:]
+        if pending and stalls >= MAX_STALLS:
+            # as MAX_HANG_RESTARTS: the verdict is settled, the rest would cost STALL_LIMIT seconds per hanging case
+            all_err.append("\n[driver] %d processes killed for not returning: the remaining %d cases were not run\n"
+                           % (stalls, len(pending)))
+            return 0, "".join(all_out), "".join(all_err)
         if not pending:
             return 0, "".join(all_out), "".join(all_err)
 
